@@ -118,6 +118,12 @@ of_linear_binary_code_finish_decoding_with_ml (of_linear_binary_code_cb_t	*ofcb)
 		OF_EXIT_FUNCTION
 		return OF_STATUS_OK;
 	}
+	if (ofcb->pchk_matrix == NULL)
+	{
+		/* a previous call already consumed the parity check matrix in a Gaussian elimination that failed */
+		OF_EXIT_FUNCTION
+		return OF_STATUS_FAILURE;
+	}
 	ofcb->remain_rows = ofcb->nb_repair_symbols;
 	ofcb->remain_cols = ofcb->nb_source_symbols + ofcb->nb_repair_symbols;
 	if (of_linear_binary_code_prepar_linear_system (ofcb) != OF_STATUS_OK)
